@@ -304,6 +304,25 @@ func registerReflectModel(e *Engine) {
 		rt := asRType(st, a[0])
 		return &RVal{Kind: rt.Kind, Typ: rt, Val: st.E.zeroPayload(rt)}
 	}
+	H["reflect.Append"] = func(st *State, a []Value) Value {
+		s := asRVal(st, a[0])
+		if s.Kind != rkSlice {
+			st.rpanic("reflect.Append: not a slice")
+		}
+		cur, _ := st.rpayload(s).(*SliceV)
+		if cur == nil {
+			cur = &SliceV{}
+		}
+		var add []Value
+		if xs, ok := a[1].(*SliceV); ok {
+			for _, x := range st.sliceElems(xs) {
+				add = append(add, st.rpayload(asRVal(st, x)))
+			}
+		}
+		ne := append(append([]Value(nil), st.sliceElems(cur)...), add...)
+		o := st.newObject(nil, "reflect.Append", &ArrayV{E: ne})
+		return &RVal{Kind: rkSlice, Typ: s.Typ, Val: &SliceV{Obj: o, Len: len(ne), Cap: len(ne)}}
+	}
 	H["reflect.MakeFunc"] = func(st *State, a []Value) Value {
 		rt := asRType(st, a[0])
 		if rt == nil {
@@ -573,7 +592,14 @@ func registerReflectModel(e *Engine) {
 	})
 	vm("Recv", func(st *State, v *RVal, a []Value) Value {
 		st.events = append(st.events, Event{Tag: "blocking:Recv"})
-		return TupleV{&RVal{}, FalseT}
+		var et types.Type = types.Typ[types.Bool]
+		if v.Typ != nil && v.Typ.GoType != nil {
+			if ct, ok := v.Typ.GoType.Underlying().(*types.Chan); ok {
+				et = ct.Elem()
+			}
+		}
+		rt := st.E.rtypeOfGo(et)
+		return TupleV{&RVal{Kind: rt.Kind, Typ: rt, Val: st.FreshValue("recv", et)}, st.FreshTerm("recvok", SBool, 0)}
 	})
 	vm("Send", func(st *State, v *RVal, a []Value) Value {
 		st.events = append(st.events, Event{Tag: "blocking:Send"})
